@@ -195,6 +195,21 @@ Definition rtmp_read_session (hs : bool) (ms : list rmsg) (s : stream) : N * N :
       (N.of_nat (length d1 + length d2), match e2 with Some e => e | None => 1000%N end)
   end.
 
+(* the same session over a transport whose fault is transient (Lib/IO.v tr_read_t) *)
+Definition rtmp_read_session_t (hs : bool) (ms : list rmsg) (s : stream) : N * N :=
+  let '(d1, e1, s1) := if hs then run_items stream tr_read_t hs_plan s [] else ([], None, s) in
+  match e1 with
+  | Some e => (N.of_nat (length d1), e)
+  | None =>
+      let '(d2, e2, _) := run_items (bufr stream) (br_read stream tr_read_t)
+                            (msgs_plan DEFCHUNK ms ++ [[RF 1]]) (bufr_new s1) [] in
+      (N.of_nat (length d1 + length d2), match e2 with Some e => e | None => 1000%N end)
+  end.
+
+(* bytes of the wire a plan reads *)
+Definition plan_total (items : list (list rop)) : N :=
+  fold_right (fun it a => fold_right (fun o b => rop_size o + b)%N a it) 0%N items.
+
 (* ============================== RTMP write plan ============================== *)
 (* WriteMessage: for each chunk io.Copy(v.w, header) and io.Copy(v.w, payload part) into the
    bufio.Writer, then Flush; the first error ends the operation *)
@@ -328,6 +343,11 @@ Fixpoint seal (l : list bytes) (term : N) (together : bool) : stream :=
 Definition mk_stream (data : bytes) (sizes : list N) (term : N) (together : bool) : stream :=
   seal (seg_go (Datatypes.S (length data)) data sizes sizes []) term together.
 
+(* transient fault: the same, followed by the rest of the wire in further Data segments *)
+Definition mk_stream_t (data rest : bytes) (sizes : list N) (term : N) (together : bool) : stream :=
+  mk_stream data sizes term together ++
+  map Data (seg_go (Datatypes.S (length rest)) rest sizes sizes []).
+
 (* cause id as the harness prints it: a sentinel id, or -2 for anything else *)
 Definition obs_cause (e : N) : sx := if (e <=? 9)%N then sN e else SZ (-2)%Z.
 Definition obs_ocause (e : option N) : sx := match e with None => SZ (-1)%Z | Some x => obs_cause x end.
@@ -348,19 +368,26 @@ Fixpoint sx_flv_tags (l : list sx) : option (list Flv.tag) :=
   | x :: t => match sx_flv_tag x, sx_flv_tags t with Some a, Some r => Some (a :: r) | _, _ => None end
   end.
 
-Definition run_flv_read (hv ha : bool) (tags : list Flv.tag) (term : N) (together : bool)
+(* mode: bit 0 = the error arrives together with the last bytes; mode >= 2 = transient fault *)
+Definition run_flv_read (hv ha : bool) (tags : list Flv.tag) (term : N) (mode : Z)
                         (sizes ks : list N) : sx :=
   let wire := Flv.mux hv ha tags in
   let fuel := Datatypes.S (length tags) in
+  let together := Z.odd mode in
+  let transient := (2 <=? mode)%Z && negb (term =? 0)%N in
   s_ok (map (fun k =>
-               let '(items, e) := flv_read_session stream tr_read fuel
-                                    (mk_stream (first_n k wire) sizes term together) in
+               let '(items, e) :=
+                 if transient then
+                   let (a, r) := split_at k wire in
+                   flv_read_session stream tr_read_t fuel (mk_stream_t a r sizes term together)
+                 else flv_read_session stream tr_read fuel
+                        (mk_stream (first_n k wire) sizes term together) in
                SL [snat (length items); obs_cause e]) ks).
 
-Definition run_flv_write (hv ha : bool) (tags : list Flv.tag) (term m : N) (is : list N) : sx :=
+Definition run_flv_write (sticky : bool) (hv ha : bool) (tags : list Flv.tag) (term m : N) (is : list N) : sx :=
   s_ok (map (fun i =>
                let '(n, e, w) := flv_write_session hv ha tags
-                                   (wtr_new (Some i) m (if (term =? 0)%N then None else Some term)) in
+                                   (wtr_new_s sticky (Some i) m (if (term =? 0)%N then None else Some term)) in
                SL [sN n; obs_ocause e; sN (lenN (wt_received w))]) is).
 
 (* ---- RTMP ---- *)
@@ -388,40 +415,51 @@ Fixpoint sx_rmsgs (l : list sx) : option (list rmsg) :=
   end.
 
 (* the content of the wire is irrelevant to a read plan: k zero bytes *)
-Definition run_rtmp_read (hs : bool) (ms : list rmsg) (term : N) (together : bool)
+Definition run_rtmp_read (hs : bool) (ms : list rmsg) (term : N) (mode : Z)
                          (sizes ks : list N) : sx :=
+  let together := Z.odd mode in
+  let transient := (2 <=? mode)%Z && negb (term =? 0)%N in
+  let total := plan_total ((if hs then hs_plan else []) ++ msgs_plan DEFCHUNK ms) in
   s_ok (map (fun k =>
-               let '(n, e) := rtmp_read_session hs ms
-                                (mk_stream (repeat 0%N (N.to_nat k)) sizes term together) in
+               let '(n, e) :=
+                 if transient then
+                   rtmp_read_session_t hs ms
+                     (mk_stream_t (repeat 0%N (N.to_nat k)) (repeat 0%N (N.to_nat (total - k))) sizes term together)
+                 else rtmp_read_session hs ms
+                        (mk_stream (repeat 0%N (N.to_nat k)) sizes term together) in
                SL [sN n; obs_cause e]) ks).
 
-Definition run_rtmp_write (hs : bool) (ms : list rmsg) (term m : N) (is : list N) : sx :=
+Definition run_rtmp_write (sticky : bool) (hs : bool) (ms : list rmsg) (term m : N) (is : list N) : sx :=
   s_ok (map (fun i =>
                let '(n, e, w) := rtmp_write_session hs ms
-                                   (wtr_new (Some i) m (if (term =? 0)%N then None else Some term)) in
+                                   (wtr_new_s sticky (Some i) m (if (term =? 0)%N then None else Some term)) in
                SL [sN n; obs_ocause e; sN (lenN (wt_received w))]) is).
+
+(* an optional trailing stickiness flag of a write case: absent or non-zero = sticky *)
+Definition sx_sticky (l : list sx) : bool :=
+  match l with [SZ 0%Z] => false | _ => true end.
 
 Definition run_c08 (c : sx) : sx :=
   match c with
   | SL (SZ 1%Z :: args) => run_errors args
-  | SL [SZ 2%Z; SZ 0%Z; SZ hv; SZ ha; SL tags; SZ term; SZ tog; SL segs; ks] =>
+  | SL [SZ 2%Z; SZ 0%Z; SZ hv; SZ ha; SL tags; SZ term; SZ mode; SL segs; ks] =>
       match sx_flv_tags tags, sxNs segs, sx_ks ks with
-      | Some tg, Some sz, Some kl => run_flv_read (zbool hv) (zbool ha) tg (Z.to_N term) (zbool tog) sz kl
+      | Some tg, Some sz, Some kl => run_flv_read (zbool hv) (zbool ha) tg (Z.to_N term) mode sz kl
       | _, _, _ => bad_case
       end
-  | SL [SZ 2%Z; SZ 1%Z; SZ hv; SZ ha; SL tags; SZ term; SZ m; is] =>
+  | SL (SZ 2%Z :: SZ 1%Z :: SZ hv :: SZ ha :: SL tags :: SZ term :: SZ m :: is :: st) =>
       match sx_flv_tags tags, sx_ks is with
-      | Some tg, Some il => run_flv_write (zbool hv) (zbool ha) tg (Z.to_N term) (Z.to_N m) il
+      | Some tg, Some il => run_flv_write (sx_sticky st) (zbool hv) (zbool ha) tg (Z.to_N term) (Z.to_N m) il
       | _, _ => bad_case
       end
-  | SL [SZ 3%Z; SZ 0%Z; SZ hs; SL msgs; SZ term; SZ tog; SL segs; ks] =>
+  | SL [SZ 3%Z; SZ 0%Z; SZ hs; SL msgs; SZ term; SZ mode; SL segs; ks] =>
       match sx_rmsgs msgs, sxNs segs, sx_ks ks with
-      | Some ms, Some sz, Some kl => run_rtmp_read (zbool hs) ms (Z.to_N term) (zbool tog) sz kl
+      | Some ms, Some sz, Some kl => run_rtmp_read (zbool hs) ms (Z.to_N term) mode sz kl
       | _, _, _ => bad_case
       end
-  | SL [SZ 3%Z; SZ 1%Z; SZ hs; SL msgs; SZ term; SZ m; is] =>
+  | SL (SZ 3%Z :: SZ 1%Z :: SZ hs :: SL msgs :: SZ term :: SZ m :: is :: st) =>
       match sx_rmsgs msgs, sx_ks is with
-      | Some ms, Some il => run_rtmp_write (zbool hs) ms (Z.to_N term) (Z.to_N m) il
+      | Some ms, Some il => run_rtmp_write (sx_sticky st) (zbool hs) ms (Z.to_N term) (Z.to_N m) il
       | _, _ => bad_case
       end
   | _ => bad_case
